@@ -252,3 +252,7 @@ PROPERTY = Property(
         "history gammas restricted to callbacks bounded by 1 (a constant gamma of 50 collapses sigma below the domain within a few games)",
     ],
 )
+
+from vf import opt as _opt  # noqa: E402
+
+PROPERTY.clauses.append(_opt.optimised("C06", next(c for c in PROPERTY.clauses if c.name == "single-call"), quick=64, thorough=640))
